@@ -41,14 +41,38 @@ PROPS = {
     },
 }
 
-FIX_COMMITS = ['4bb8197']
+_DEV = 'device model (units/verus/prelude/dev.rs): std::io Read/Write/Seek on a Cursor/regular file with fault injection — any operation may fail, read may be short in any way, failed write_all leaves a torn prefix, sizes fit off_t; an assumption about the environment, not about e57'
+_CRC_OFF = 'default configuration verified (cargo feature crc32c off); with the feature on crc32c::crc32c is assumed to compute the same function (crc32c is uninterpreted in the page-layer units, so the proofs are unchanged)'
+TRUSTED_ALLOW['page_w'] = {
+    'external_body:seek', 'external_body:stream_position', 'external_body:write_all', 'external_body:read',
+    'external_body:read_exact', 'external_body:flush', 'assume_specification:<[T]>::fill', 'external_body:be4_len',
+    'external_body:new', 'external_body:calculate', 'external_body:shim_u32_to_be_bytes', 'external_body:shim_u32_from_be_bytes',
+}
+TRUSTED_ALLOW['page_r'] = TRUSTED_ALLOW['page_w'] | {'external_body:slice_eq4'}
+PROPS['C11'] = {
+    'level': 'proof',
+    'verus': ['page_w', 'page_r'],
+    'claim': ('Representation invariants of PagedWriter (every device page sealed, bytes at/after the cursor untouched, page-granular '
+              'zero-filled logical stream view) and PagedReader (cache clause) proved preserved by the real bodies of every public '
+              'operation against the device model, with frame conditions over the whole stream view: write/write_all append exactly '
+              'the buffer, flush makes the device payload equal the logical stream with all pages sealed, physical_position = '
+              'phys(cursor), physical_size = 1024*npages, physical_seek accepts exactly offsets inside the file and outside checksum '
+              'bytes and leaves the stream unchanged, align writes only zeros; reader: seek_physical maps physical to logical, read returns '
+              'the logical bytes at the cursor. By induction over operations this covers every history and every short-read schedule.'),
+    'trusted': GLOBAL_TRUSTED + [_DEV, _CRC_OFF],
+    'assumptions': [_DEV, _CRC_OFF, 'std::io::Write::write_all (provided trait method) is re-stated in the unit and verified against the extracted write',
+                    'Drop for PagedWriter (flush, errors ignored) is outside the unit',
+                    'reader: seek_physical accepts offsets inside checksum bytes; writer-reported positions never are (proved: physical_position % 1024 < 1020)'],
+}
+
+FIX_COMMITS = ['4bb8197', '4c9a29a']
 
 _PENDING = 'unit not completed yet in the build round (applicable; see DESIGN.md §1) — not claimed until its obligations are discharged'
 NOT_APPLICABLE = {
     'C01': _PENDING, 'C02': _PENDING, 'C03': _PENDING,
     'C04': 'lives entirely in format!-built strings and roxmltree parsing; no contract within reach of Verus (no str byte reasoning) or Kani (roxmltree does not finish) can state parse(serialise(x)) = x (DESIGN.md §6)',
     'C05': _PENDING, 'C06': _PENDING, 'C07': _PENDING, 'C08': _PENDING, 'C09': _PENDING, 'C10': _PENDING,
-    'C11': _PENDING, 'C13': _PENDING, 'C14': _PENDING, 'C15': _PENDING, 'C16': _PENDING, 'C17': _PENDING,
+    'C13': _PENDING, 'C14': _PENDING, 'C15': _PENDING, 'C16': _PENDING, 'C17': _PENDING,
     'C18': 'about roxmltree name matching and element lookup over arbitrary XML trees; would need an assumed contract on the dependency, which decides nothing (DESIGN.md §6)',
     'C19': 'whole-file composition of C01+C03+C04 plus writer determinism; the XML half is out of reach and whole-program composition is not a per-function contract; decidable ingredients are discharged under C10/C11/C12 (DESIGN.md §6)',
     'C20': 'the tools are main() functions doing process and file I/O; there is no function to put under contract (DESIGN.md §6)',
